@@ -400,6 +400,19 @@ func (envs *Manager) CreateEnvironment(workflowPath string, userVars map[string]
 		WithField("level", infologger.IL_Devel).
 		Debug("envman write lock")
 	envs.mu.Lock()
+	// The detector check above is not atomic with this insertion: a concurrent CreateEnvironment which needs
+	// the same detectors may have passed it too and inserted its environment meanwhile, so we look again.
+	for _, otherEnv := range envs.m {
+		if otherEnv.workflow == nil {
+			continue
+		}
+		for det := range otherEnv.GetActiveDetectors() {
+			if _, contains := neededDetectors[det]; contains {
+				envs.mu.Unlock()
+				return env.id, fmt.Errorf("detector %s is already in use", det.String())
+			}
+		}
+	}
 	envs.m[env.id] = env
 	envs.pendingStateChangeCh[env.id] = env.stateChangedCh
 	envs.mu.Unlock()
